@@ -10,13 +10,16 @@ from hv import Case
 from kern2 import Snap, area2, cross3, fr_tok
 
 SPEC = {
-    "lean_modules": ["Honeycomb.Props.C13", "Honeycomb.Props.C13b", "Honeycomb.Props.C13c"],
+    "lean_modules": ["Honeycomb.Props.C13", "Honeycomb.Props.C13b", "Honeycomb.Props.C13c", "Honeycomb.Props.C13d"],
     "required_theorems": ["C13_check_requirements_ok_iff", "C13_shoelace_step", "C13_earclip_area_sum",
                           "C13_fan_area_sum", "C13_fan_star_sees_every_side", "C13_fan_apex_sees_all",
                           "C13_earclip_preserves_WF", "C13_fan_preserves_WF", "C13_fan_convex_preserves_WF",
                           "C13_fan_preserves_WF_closed_face", "C13_fan_structure", "C13_fan_convex_structure",
                           "C13_fan_cell_structure", "C13_earclip_frame", "C13_earclip_structure",
-                          "C13_fan_test_iff", "C13_fan_first_side_weak_witness"],
+                          "C13_fan_test_iff", "C13_fan_first_side_weak_witness",
+                          "C13_fan_triangles_carry_list_coordinates", "C13_fan_area_conserved_in_map",
+                          "C13_fan_orientation_in_map", "C13_fan_old_vertices_keep_coordinates",
+                          "C13_fan_convex_triangles_carry_list_coordinates"],
     "trusted_base": [
         "Lean 4.33 kernel; axioms propext, Classical.choice, Quot.sound only",
         "hand-written model Honeycomb/Model/Kernels/{Geom2,Fan,EarClip}.lean (+ Stm, Map, Ops, Ops2) tied to /repo by the "
@@ -28,8 +31,12 @@ SPEC = {
     ],
     "assumptions": [
         "the theorems on areas/orientation are about the vertex-list computations (ear search, list surgery, star search) shared by "
-        "the model kernels; the map surgery is treated in Props/C13b.lean (WF, exact face structure of the fans); that the faces it "
-        "builds carry the coordinates of those vertex-list triangles is validated by the oracle, not proved",
+        "the model kernels; the map surgery is treated in Props/C13b.lean (WF, exact face structure of the fans); for the two FAN "
+        "kernels Props/C13d.lean proves that the dart triangles of the result map, corners read through the result's vertex ids, "
+        "carry exactly those vertex-list triangles (hence area sum and orientation hold in the map); for ear clipping this tie is "
+        "validated by the oracle, not proved",
+        "C13d (coordinates in the result map): the spare darts are fresh — free (all beta null) and without a vertex value —, the "
+        "vertex storage merges with Vertex2's average (cfg.law 0 = avgLaw), no injected failure (fc = 0)",
         "fan WF/structure theorems: the face is a closed beta1-cycle (necessary: on an open chain the final 1-sew can write beta1(0))",
         "spare darts are distinct free in-use darts",
     ],
@@ -48,8 +55,10 @@ SPEC = {
         "frame) under the hypothesis EarsNotLast (the ear is never found at the last index of the vertex list): necessary — for "
         "ear = n-1 the kernel's vector surgery drops the wrong dart — and true on simple polygons by the two-ears theorem, which is "
         "not proved",
-        "that the triangles of the map surgery carry the coordinates of the vertex-list triangles (fanTriangles / earclipTriangles): "
-        "oracle only",
+        "that the triangles of the map surgery carry the coordinates of the vertex-list triangles: PROVED for fan_cell and "
+        "fan_convex_cell with fresh spare darts (C13_fan_triangles_carry_list_coordinates, C13_fan_area_conserved_in_map, "
+        "C13_fan_orientation_in_map, C13_fan_old_vertices_keep_coordinates, C13_fan_convex_triangles_carry_list_coordinates); NOT "
+        "proved for ear clipping (earclipTriangles; oracle only) nor for spare darts that already carry links or a vertex value",
         "the last remaining triangle of ear clipping has the announced orientation (the code does not test it; follows from simplicity)",
         "the first side examined by the fan's star search is only sign-tested by the code: C13_fan_test_iff states exactly what is "
         "guaranteed, C13_fan_first_side_weak_witness shows a degenerate first triangle is accepted; the strict-orientation theorem "
@@ -543,7 +552,7 @@ def run(tier, seed):
     parts.append(("refusals: spare counts, undefined vertices, small faces",
                   hv.campaign(refusal_cases(rng, 1500 if tier == "quick" else 20000), oracle_c13, max_report=50)))
     parts.append(("degenerate inputs (outside the guard)",
-                  hv.campaign(degenerate_cases(rng, 3000 if tier == "quick" else 40000), oracle_c13, max_report=50)))
+                  hv.campaign(degenerate_cases(rng, 3000 if tier == "quick" else 40000), oracle_c13, max_report=50, advisory=True)))
     parts.append(("inside tx blocks", hv.campaign(block_cases(rng, 500 if tier == "quick" else 5000), None)))
     from props import c08
     parts.append(("kernels after edits of their face in the same transaction (convex polygons must still be accepted)",
